@@ -19,7 +19,7 @@ CONFIG = {'assumptions': [
     'section names compared as bytes (ASCII names)',
     '.eh_frame of a file reached through a debug link is not compared with the stripped file (objcopy --only-keep-debug '
     'turns it into NOBITS by construction)']}
-LEVEL = {'text': 'Machine-checked, 25 theorems closed under the global context, universally quantified over the zlib oracle, '
+LEVEL = {'text': 'Machine-checked, 28 theorems closed under the global context, universally quantified over the zlib oracle, '
                  'the loader and the reader of linked files. Specification level: the view handed to DWARFInfo (configuration, 19 '
                  'section slots with content / size / address / relocation section, supplementary view) of ANY abstract file is '
                  'unchanged by gABI compression of any set of plainly stored sections (any reserved word, alignment, offset, following '
@@ -31,6 +31,8 @@ LEVEL = {'text': 'Machine-checked, 25 theorems closed under the global context, 
                  'view, with a wrong CRC there is none, unfollowed links are inert [C11_view_through_debuglink, C11_only_keep_debug_workflow, '
                  'C11_debuglink_crc_mismatch_no_view, C11_debuglink_inert]; .gnu_debugaltlink and .debug_sup give the same supplementary '
                  'view = the supplementary file\'s own view, None without loader/follow_links [C11_view_altlink, C11_view_debugsup]. '
+                 'The two link kinds compose: the loader is handed down, so through a debug link one sees the debug file\'s own view '
+                 'including the supplementary view [C11_view_two_hop, C11_view_two_hop_altlink, C11_view_two_hop_debugsup]. '
                  'Model level: the transliteration of get_dwarf_info returns a DWARFInfo whose view is the specification\'s debug_view '
                  'and raises exactly when there is none, for every file the model of ELFFile() returns [C11_model_refines_spec], hence '
                  'the invariance holds of the model [C11_model_view_invariant_gabi/_zgnu, C11_transforms_constructible]; has_dwarf_info = '
@@ -53,7 +55,8 @@ LEVEL = {'text': 'Machine-checked, 25 theorems closed under the global context, 
 RULE = ('cases: every seed object under seeds/c11 and every ELF under test/testfiles_for_unittests, plain and re-encoded '
         '(gABI and legacy framing built by the Coq encoders at zlib levels 0-9, all/some/only-shrinking sections; objcopy '
         'zlib / zlib-gnu / only-keep-debug + debuglink variants; debug links with right and wrong CRC, with and without a '
-        'loader, follow_links on/off; .gnu_debugaltlink / .debug_sup; keep-debug = unobserved sections made SHT_NOBITS), synthetic images in all class/byte-order '
+        'loader, follow_links on/off; .gnu_debugaltlink / .debug_sup; two-hop chains debug link -> supplementary link (own builders and the '
+        'dwz-produced test files whose DIEs use the alt/sup forms); keep-debug = unobserved sections made SHT_NOBITS), synthetic images in all class/byte-order '
         'combinations, presence truth table, malformed framings. distinct = hash(kind, abstract); non-trivial = at least '
         'one section re-encoded, a link followed, or an error case')
 
@@ -368,6 +371,13 @@ def gen(ctx):
     cases.append(('link', ['test:debuglink', 'testpair', 'right', 1, 1, 'plain']))
     for name in seeds[:ctx.scale(3, len(seeds))]:
         cases.append(('link_path', ['seed:' + name]))
+    # two hops: stripped --.gnu_debuglink--> debug file --.gnu_debugaltlink/.debug_sup--> supplementary file
+    for k in range(0, len(seeds), ctx.scale(2, 1)):
+        a, b = seeds[k], seeds[(k + 7) % len(seeds)]
+        cases.append(('chain', ['seed:' + a, 'seed:' + b, ['alt', 'sup'][(k // 2) % 2], 'own', rng.getrandbits(32)]))
+    for name in tests:
+        if name.endswith('.debug') and ('altlink' in name or 'debugsup' in name):      # dwz-produced: alt/sup FORMS in the DIEs
+            cases.append(('chain', ['test:' + name, '', '', 'test', rng.getrandbits(32)]))
     # supplementary links
     pairs = [(seeds[i], seeds[(i + 5) % len(seeds)]) for i in range(0, len(seeds), ctx.scale(3, 1))]
     for a, b in pairs:
@@ -891,6 +901,54 @@ def h_sup(ctx, kind, a):
                    nontrivial=True, key='C11/sup-dump-differs')
 
 
+def h_chain(ctx, kind, a):
+    """composition of the two link kinds: what is seen through a debug link is the debug file's view INCLUDING the
+    supplementary file it names, resolved by the same loader (C11_view_two_hop)"""
+    main_src, sup_src, enc, variant, seed = a
+    rng = _mk_rng(seed)
+    if variant == 'own':
+        main, supimg = _elf(_load(main_src)), _load(sup_src)
+        supname = b'sup/' + bytes(rng.choice(b'abcdefgh') for _ in range(rng.randrange(1, 9))) + b'.sup'
+        ident = bytes(rng.getrandbits(8) for _ in range(20))
+        if enc == 'alt':
+            (lb,) = yield [['altlink_body', supname, ident]]
+            dbg = U.rewrite(main, add=[dict(name=b'.gnu_debugaltlink', body=lb)])
+        else:
+            (lb,) = yield [['debugsup_body', main.le, 5, 0, supname, bytes([20]) + ident]]
+            dbg = U.rewrite(main, add=[dict(name=b'.debug_sup', body=lb)])
+        extra = {supname: supimg}
+    else:
+        dbg = _load(main_src)
+        extra = fs_closure(dbg, dir_lookup(main_src))
+        if not extra:
+            raise Skip('no supplementary file found')
+    delf = _elf(dbg)
+    dbgname = b'dbg/' + bytes(rng.choice(b'klmnopq') for _ in range(rng.randrange(1, 8))) + b'.debug'
+    (c,) = yield [['crc', dbg]]
+    (body,) = yield [['debuglink_body', delf.le, dbgname, b'\0' * (3 - len(dbgname) % 4), c[2]]]
+    stripped = strip_debug(delf, body)
+    fs = dict(extra)
+    fs[dbgname] = dbg
+    iv = impl_view(stripped, fs, True, True)
+    want = impl_dump(dbg, fs, eh=False)                  # the debug file opened directly with the same loader
+    ctx.record('chain_dump', a, impl=impl_dump(stripped, fs, eh=False), spec=want, model=None, in_domain=want[0] != 'err',
+               nontrivial=True, key='C11/chain-dump-differs')
+    if any(len(v) > MODEL_MAX for v in list(fs.values()) + [stripped]):
+        ctx.bump('model_skipped_large', kind)
+        direct = impl_view(dbg, fs, True, True)
+        icore, iextra = split_impl(iv)
+        dcore, _ = split_impl(direct)
+        ctx.record(kind, a, impl=icore, spec=dcore, model=None, in_domain=dcore != 'rejected', nontrivial=True,
+                   key='C11/chain-view-differs')
+        return
+    tbl = yield from _tbl_for([stripped] + list(fs.values()))
+    (m, s_s), (md, s_d) = yield [_view_req(stripped, fs, 1, 1, True, tbl), _view_req(dbg, fs, 1, 1, True, tbl)]
+    spec = canon_spec(s_d)
+    _record_view(ctx, kind, a, iv, m, spec, key='chain-view-differs', in_domain=spec != 'rejected',
+                 nontrivial=spec != 'rejected' and spec[2] != 'none')
+    ctx.bump('chain_sup', 'loaded' if (spec != 'rejected' and spec[2] != 'none') else 'absent')
+
+
 def h_presence(ctx, kind, a):
     from elftools.elf.elffile import ELFFile
     le, is64, mask, strict, seed = a
@@ -1087,6 +1145,6 @@ def h_linkparse(ctx, kind, a):
     ctx.record(kind, a, impl=impl, spec=spec, model=model, in_domain=complete, nontrivial=True, key='C11/debuglink-parse')
 
 
-HANDLERS = {'plain': h_plain, 'keepdebug': h_keepdebug, 'presence_file': h_presence_file, 'gabi': h_reencode, 'zgnu': h_reencode,
+HANDLERS = {'plain': h_plain, 'keepdebug': h_keepdebug, 'chain': h_chain, 'presence_file': h_presence_file, 'gabi': h_reencode, 'zgnu': h_reencode,
             'objcopy': h_objcopy, 'link': h_link, 'link_path': h_link_path, 'sup': h_sup, 'presence': h_presence,
             'synth': h_synth, 'zbad': h_bad, 'gbad': h_bad, 'crc': h_crc, 'crc_rand': h_crc, 'linkparse': h_linkparse}
